@@ -467,9 +467,15 @@ pub fn large_mul_trace(_x: &mut VecType, y: &[Limb]) -> Option<()> {
     Some(())
 }
 
+#[cfg(not(feature = "compact"))]
+const POW_MAX_EXP: u32 = 2048;
+// compact builds have no 5^135 step: 27 per iteration, so the same trace length covers a smaller exponent range
+#[cfg(feature = "compact")]
+const POW_MAX_EXP: u32 = 800;
+
 pub fn pow_decomposition() {
     let exp: u32 = kani::any();
-    kani::assume(exp <= 2048);
+    kani::assume(exp <= POW_MAX_EXP);
     let mut v = VecType::from_u64(1);
     unsafe {
         NPOW = 0;
@@ -500,6 +506,15 @@ pub fn pow_decomposition() {
     }
     assert!(total == exp);
     kani::cover!(exp >= 135 && exp % 27 != 0, "opt:large, small and remainder factors");
+    #[cfg(feature = "compact")]
+    unsafe {
+        // compact: every factor comes from u64::pow on demand (no table, no large step)
+        let mut i = 0;
+        while i < NPOW {
+            assert!(POW_KIND[i] == 1);
+            i += 1;
+        }
+    }
 }
 
 // ---- concrete-operand runs of the composed operations (no symbolic data: CBMC folds them) ---------------------
@@ -554,4 +569,54 @@ pub fn pow_concrete() {
         n -= 1;
     }
     assert!(same(&v, &e, n));
+}
+
+// ---- Bigint::pow(base, exp): dispatch to the power-of-five multiply and the shift (both replaced by trace stubs) ----
+pub static mut D_POW5: [u32; 4] = [0; 4];
+pub static mut D_NPOW5: usize = 0;
+pub static mut D_SHL: [usize; 4] = [0; 4];
+pub static mut D_NSHL: usize = 0;
+pub static mut D_ORDER_OK: bool = true;
+
+pub fn pow5_trace(_x: &mut VecType, exp: u32) -> Option<()> {
+    unsafe {
+        assert!(D_NPOW5 < 4);
+        D_POW5[D_NPOW5] = exp;
+        D_NPOW5 += 1;
+    }
+    Some(())
+}
+
+pub fn shl_trace(_x: &mut VecType, n: usize) -> Option<()> {
+    unsafe {
+        assert!(D_NSHL < 4);
+        D_SHL[D_NSHL] = n;
+        D_NSHL += 1;
+    }
+    Some(())
+}
+
+pub fn bigint_pow_dispatch() {
+    use minimal_lexical::bigint::Bigint;
+    let exp: u32 = kani::any();
+    let which: u8 = kani::any();
+    kani::assume(which < 3);
+    let base: u32 = if which == 0 { 2 } else if which == 1 { 5 } else { 10 };
+    let mut b = Bigint::from_u64(3);
+    unsafe {
+        D_NPOW5 = 0;
+        D_NSHL = 0;
+    }
+    assert!(b.pow(base, exp).is_some());
+    unsafe {
+        // 10^e = 5^e * 2^e, 5^e = 5^e, 2^e = shift by e
+        assert!(D_NPOW5 == (base % 5 == 0) as usize);
+        assert!(D_NSHL == (base % 2 == 0) as usize);
+        if base % 5 == 0 {
+            assert!(D_POW5[0] == exp);
+        }
+        if base % 2 == 0 {
+            assert!(D_SHL[0] == exp as usize);
+        }
+    }
 }
